@@ -254,12 +254,12 @@ PROBES = {
     'beat': [{}, {'f_measure_threshold': 0.125}, {'min_beat_time': 2.0}, {'p_score_threshold': 0.25, 'bins': 21}, {'cemgil_sigma': 0.0625, 'goto_threshold': 0.25},
              {'continuity_phase_threshold': 0.25, 'continuity_period_threshold': 0.25}, {'unrelated': 3}],
     'onset': [{}, {'window': 0.125}, {'unrelated': 1}],
-    'segment': [{}, {'trim': True}, {'frame_size': 0.25}, {'beta': 2.0}, {'window': 7.0}, {'marginal': True}, {'unrelated': 0}],
+    'segment': [{}, {'trim': True}, {'frame_size': 0.25}, {'beta': 2.0}, {'beta': 0.5}, {'window': 7.0}, {'marginal': True}, {'unrelated': 0}],
     'pattern': [{}, {'n': 1}, {'tol': 0.5}, {'similarity_metric': 'cardinality_score'}, {'thres': 0.25}, {'thresh': 0.1}, {'unrelated': 0}],
     'transcription': [{}, {'offset_ratio': None}, {'offset_ratio': 0.5}, {'onset_tolerance': 0.125, 'strict': True}, {'pitch_tolerance': 25.0},
-                      {'offset_min_tolerance': 0.25, 'beta': 2.0}, {'unrelated': 0}],
+                      {'offset_min_tolerance': 0.25, 'beta': 2.0}, {'beta': 0.5}, {'onset_tolerance': 0.125, 'offset_min_tolerance': 0.03125}, {'unrelated': 0}],
     'transcription_velocity': [{}, {'offset_ratio': None}, {'velocity_tolerance': 0.25}, {'onset_tolerance': 0.125, 'strict': True}, {'unrelated': 0}],
-    'hierarchy': [{}, {'frame_size': 0.5}, {'window': 4.0}, {'beta': 2.0}, {'transitive': False}, {'unrelated': 0}],
+    'hierarchy': [{}, {'frame_size': 0.5}, {'window': 4.0}, {'beta': 2.0}, {'beta': 0.5}, {'transitive': False}, {'unrelated': 0}],
     'melody': [{}, {'cent_tolerance': 25.0}, {'hop': 0.0625}, {'kind': 'linear'}, {'base_frequency': 20.0}, {'unrelated': 0}],
     'multipitch': [{}, {'window': 0.25}, {'unrelated': 0}],
     'tempo': [{}, {'tol': 0.04}, {'unrelated': 0}],
